@@ -519,7 +519,10 @@ def _twist(rng, v):
     if isinstance(v, int):
         return float(v) if abs(v) < 2 ** 53 and rng.random() < 0.7 else v + 1
     if isinstance(v, float):
-        return int(v) if v.is_integer() and rng.random() < 0.7 else v * 2 + 1
+        if v.is_integer() and abs(v) < 2 ** 53 and rng.random() < 0.7:
+            return int(v)
+        w = v / 2 + 1                      # stays finite (v * 2 overflows to inf near the top of the range)
+        return w if w != v else 0.5
     if isinstance(v, str):
         return v + "x"
     if isinstance(v, list):
@@ -550,6 +553,10 @@ def make_gate(rng, sps):
     seen, res = set(), []
     for sp in out:
         t = canon_text(sp)
+        try:
+            json.dumps(sp, allow_nan=False)      # state points are JSON: no inf / nan
+        except ValueError:
+            continue
         if isinstance(sp, dict) and t not in seen and not has_unhashable(sp):
             seen.add(t)
             res.append(sp)
